@@ -11,6 +11,21 @@ def findStrong {D} [DecidableEq D] (H : List Nat → D) (blocks : List (BlockSig
     Option (BlockSig D) :=
   (blocks.filter (·.weak = weak)).find? (·.strong = H data)
 
+/-- `data.chunks(bs)` / `data.par_chunks(bs)` (rayon's `collect` keeps the order): consecutive blocks of `bs` bytes, the
+last one possibly shorter. Fuel = number of bytes. -/
+def chunksFuel (bs : Nat) : Nat → List Nat → List (List Nat)
+  | 0, _ => []
+  | fuel+1, l => if l.isEmpty then [] else l.take bs :: chunksFuel bs fuel (l.drop bs)
+
+def chunks (data : List Nat) (bs : Nat) : List (List Nat) := chunksFuel bs data.length data
+
+/-- `.enumerate()` -/
+def enumFrom {α : Type} : Nat → List α → List (Nat × α)
+  | _, [] => []
+  | i, x :: t => (i, x) :: enumFrom (i + 1) t
+
+def enumerate {α : Type} (l : List α) : List (Nat × α) := enumFrom 0 l
+
 /-- `u32::checked_add` -/
 def checkedAdd32 (a b : Nat) : Option Nat := if a + b ≤ 4294967295 then some (a + b) else none
 
